@@ -26,6 +26,9 @@ type c15Case struct {
 	// Redir2, when set, is a second redir value sent in the same request; First says whether it precedes Redir.
 	Redir2 string `json:"redir2,omitempty"`
 	First  bool   `json:"redir2_first,omitempty"`
+	// Pre: what the browser did before the flow: "" nothing, "loggedin" a completed password login (no logout),
+	// "other" a completed login as another account
+	Pre string `json:"pre,omitempty"`
 }
 
 var c15Flows = []string{"login", "otplogin", "totp", "sms", "oauth2"}
@@ -36,13 +39,20 @@ func c15Run(c c15Case) *Violation {
 		Accounts: []harness.AccountSpec{
 			{PID: "plain@x.io", Password: "Passw0rd!A", OTPs: 1},
 			{PID: "totp@x.io", Password: "Passw0rd!B", TOTP: true},
-			{PID: "sms@x.io", Password: "Passw0rd!C", Phone: "+15550002"}}}
+			{PID: "sms@x.io", Password: "Passw0rd!C", Phone: "+15550002"},
+			{PID: "extra@x.io", Password: "Passw0rd!D", OTPs: 1}}}
 	w, err := harness.NewWorld(cfg)
 	if err != nil {
 		return violation("C15", "world", "world construction failed: %v", err)
 	}
 	defer w.Close()
 	w.RegisterCode("code-u1", harness.OAuthIdentity{UID: "u1", Email: "u1@prov.io"})
+	switch c.Pre {
+	case "loggedin":
+		w.Do(harness.Req{Method: "POST", Path: w.Path("/login"), Form: map[string]string{"email": "plain@x.io", "password": "Passw0rd!A"}})
+	case "other":
+		w.Do(harness.Req{Method: "POST", Path: w.Path("/otp/login"), Form: map[string]string{"email": "extra@x.io", "password": w.Seeded[3].OTPs[0]}})
+	}
 	q := harness.Req{Method: "POST"}
 	multi := func() []string {
 		if c.Redir2 == "" {
@@ -66,6 +76,7 @@ func c15Run(c c15Case) *Violation {
 		}
 	}
 	page := ""
+	var startWire *harness.Wire
 	switch c.Flow {
 	case "login":
 		q.Path, q.Form = w.Path("/login"), map[string]string{"email": "plain@x.io", "password": "Passw0rd!A"}
@@ -83,8 +94,13 @@ func c15Run(c c15Case) *Violation {
 		q.Path, q.Form = w.Path("/2fa/sms/validate"), map[string]string{"code": r.SessAfter["sms_secret"]}
 		deliver(&q)
 	case "oauth2":
-		r := w.Do(harness.Req{Method: "GET", Path: w.Path("/oauth2/goog"), Query: url.Values{"redir": multi()}})
-		q = harness.Req{Method: "GET", Path: w.Path("/oauth2/callback/goog"), Query: url.Values{"state": {r.SessAfter["oauth2_state"]}, "code": {"code-u1"}}}
+		// the start request carries the parameter too: its own answer is judged like the final one
+		sw, err := w.DoSocket(harness.Req{Method: "GET", Path: w.Path("/oauth2/goog"), Query: url.Values{"redir": multi()}})
+		if err != nil {
+			return nil
+		}
+		startWire = sw
+		q = harness.Req{Method: "GET", Path: w.Path("/oauth2/callback/goog"), Query: url.Values{"state": {w.Jars[0].SessionCopy()["oauth2_state"]}, "code": {"code-u1"}}}
 	}
 	page = q.Path
 	_ = page
@@ -98,7 +114,9 @@ func c15Run(c c15Case) *Violation {
 	}
 	loggedIn := w.Jars[0].SessionCopy()["uid"] != ""
 	if !loggedIn {
-		return violation("C15", "flow-did-not-complete:"+c.Flow, "the %s flow did not log in (status %d): harness problem, not a property violation", c.Flow, wire.Status)
+		// the flow did not complete: nothing to judge about its final answer (counted, never a violation)
+		st("C15").add("inconclusive", 1)
+		return nil
 	}
 	check := func(where, loc string) *Violation {
 		ok, cls := sameSite(loc, scheme, "site.example")
@@ -109,6 +127,19 @@ func c15Run(c c15Case) *Violation {
 			cls += "+repeated"
 		}
 		return violation("C15", "offsite:"+where+":"+flowGroup(c.Flow)+":class="+cls, "flow %s (%s): redir=%q produced %s %q, which a browser on %s://site.example resolves to another origin (%s)", c.Flow, modeName(c), c.Redir, where, loc, scheme, cls)
+	}
+	if startWire != nil && startWire.HasLocation && !strings.HasPrefix(startWire.RawLocation, "https://"+harness.ProviderHost+"/") {
+		// the start answer goes to the configured provider or stays on the site
+		if v := check("start-Location", startWire.RawLocation); v != nil {
+			return v
+		}
+	}
+	if startWire != nil && startWire.JSON != nil {
+		if loc, ok := startWire.JSON["location"].(string); ok && !strings.HasPrefix(loc, "https://"+harness.ProviderHost+"/") {
+			if v := check("start-json-location", loc); v != nil {
+				return v
+			}
+		}
 	}
 	if wire.HasLocation {
 		if v := check("Location", wire.RawLocation); v != nil {
@@ -166,6 +197,7 @@ func c15GenRedir(t *rapid.T) string {
 func c15Gen(t *rapid.T) c15Case {
 	c := c15Case{Redir: c15GenRedir(t), Flow: pick(t, "flow", c15Flows...), JSON: chance(t, "json", 40), HTTPS: chance(t, "https", 50), Mount: pick(t, "mount", "/auth", "/auth", "")}
 	c.InBody = !c.JSON && chance(t, "inbody", 40)
+	c.Pre = pick(t, "pre", "", "", "", "loggedin", "other")
 	if chance(t, "repeated", 30) {
 		// the parameter repeated: a benign value beside the hostile one, in either order
 		c.Redir2 = pick(t, "redir2", "/dashboard", "/x", "/a/b?c=1", "//evil.com", "https://evil.com/")
@@ -195,7 +227,7 @@ func TestC15(t *testing.T) {
 		c := c15Gen(rt)
 		hostile, cls := c15Class(c)
 		v := c15Run(c)
-		s.record(hostile, fnv64(c.Flow, modeName(c), cls, c.Redir), []string{"flow:" + c.Flow, "class:" + cls}, func() interface{} { return c })
+		s.record(hostile, fnv64(c.Flow, modeName(c), cls, c.Redir, c.Pre), []string{"flow:" + c.Flow, "class:" + cls, "pre:" + c.Pre}, func() interface{} { return c })
 		handle(rt, v, "c15", c)
 	})
 }
